@@ -80,9 +80,11 @@ def c17a(ck, prog):
         return
     mw = writes_to(f, msg.bb)
     # chunk buffer: Vec::from(&size_hex[pos..])
-    app = [c for c in f.calls_to(r"Vec::<T, A>::append$") if paths.root_call(f, c.args[1], through=paths.TRANSPARENT + r"|DerefMut>::deref_mut$") is not None and paths.root_call(f, c.args[1], through=paths.TRANSPARENT + r"|DerefMut>::deref_mut$").bb == msg.bb]
+    THRU = paths.TRANSPARENT + r"|DerefMut>::deref_mut$|Deref>::deref$|::as_slice$|::as_mut_slice$"
+    app = [c for c in f.calls_to(r"Vec::<T, A>::(append|extend_from_slice|extend)$") if len(c.args) > 1 and paths.root_call(f, c.args[1], through=THRU) is not None and paths.root_call(f, c.args[1], through=THRU).bb == msg.bb
+           and not (paths.root_call(f, c.args[0], through=THRU) is not None and paths.root_call(f, c.args[0], through=THRU).bb == msg.bb)]
     ok = len(app) == 1
-    ck.ob(R, "message-appended-once", ok, f.loc(hx.sp), "" if ok else "the message is appended to the chunk %d times" % len(app), how="chunk.append(&mut message)")
+    ck.ob(R, "message-appended-once", ok, f.loc(hx.sp), "" if ok else "the message is put into the chunk %d times" % len(app), how="chunk.append(&mut message) / chunk.extend_from_slice(&message)")
     if not ok:
         return
     ap = app[0]
@@ -121,7 +123,10 @@ def c17a(ck, prog):
     # line breaks: an event-stream parser ends a line at CRLF, LF *and* CR; the encoder must split at all three,
     # or a message containing one of them is decoded with other line boundaries (and its tail can pose as another field)
     sp = []
-    for g in [f] + prog.descendants(f.key):
+    hosts = [f] + prog.descendants(f.key)
+    for k in f.rec.get("inlined", []):
+        hosts += prog.descendants(k)
+    for g in hosts:
         for c in g.calls_to(r"^core::str::<impl str>::(split|lines|split_terminator|split_inclusive|rsplit|splitn|split_once)$"):
             sp.append((g, c))
     seps = set()
@@ -145,11 +150,30 @@ def c17a(ck, prog):
     # (3) chunk framing: [hex digits] CRLF message CRLF
     chunk = paths.root_call(f, ap.args[0], through=paths.TRANSPARENT + r"|DerefMut>::deref_mut$")
     cw = writes_to(f, chunk.bb) if chunk is not None else []
-    shape = [(c.name, lit(f, c, 1) if c.name != "append" else "<message>") for c in cw]
-    ok = shape == [("extend_from_slice", "\r\n"), ("append", "<message>"), ("extend_from_slice", "\r\n")]
+
+    def classify(op, c=None):
+        v = None
+        if c is not None:
+            v = lit(f, c, 1)
+        if v is not None:
+            return ("lit", "\n" if v == 10 else (chr(v) if isinstance(v, int) else v))
+        d = decision.describe_deep(f, op, 6)
+        if "hexized_bytes(" in d and re.search(r"index\(|RangeFrom|get_unchecked\(|split_at\(", d) and "position(" in d:
+            return ("hex-size",)
+        r = paths.root_call(f, op, through=THRU)
+        if r is not None and r.bb == msg.bb:
+            return ("message",)
+        return ("?", d[:50])
+
+    shape = []
+    if chunk is not None and chunk.name in ("from", "to_vec", "to_owned", "from_iter", "into") and chunk.args:
+        shape.append(classify(chunk.args[-1]))     # the chunk starts as a copy of something
+    for c in cw:
+        shape.append(classify(c.args[1], c) if len(c.args) > 1 else ("?", c.name))
+    want = [("hex-size",), ("lit", "\r\n"), ("message",), ("lit", "\r\n")]
+    ok = shape == want
     src = decision.describe_deep(f, ap.args[0], 5)
-    ok = ok and "hexized_bytes" in src and "index(" in src
-    ck.ob(R, "chunk-framing", ok, f.loc(ap.sp), "" if ok else "a chunk is built as %r on %s, expected hex-size CRLF message CRLF" % (shape, src[:60]), how="<hex size> CRLF <message> CRLF")
+    ck.ob(R, "chunk-framing", ok, f.loc(ap.sp), "" if ok else "a chunk is built as %r, expected hex-size CRLF message CRLF" % (shape,), how="<hex size> CRLF <message> CRLF")
     # leading zeros: position(!= '0').unwrap() is safe because the message is never empty
     pos = [c for c in f.calls_to(r"Iterator>?::position$") if "hexized_bytes" in decision.describe_deep(f, c.args[0], 4)]
     ok = len(pos) == 1
@@ -176,7 +200,7 @@ def c17a(ck, prog):
     head = [c for c in wa_s if f.dominates(c.bb, nx.bb)]
     ok = len(head) == 1 and any(f.dominates(head[0].bb, x.bb) and f.dominates(x.bb, nx.bb) for x in fl_s)
     ck.ob(R, "head-before-items", ok, f.loc(nx.sp), "" if ok else "the response head is not written and flushed before the first stream item is awaited", how="write_all(head); flush() dominate stream.next()")
-    per = [c for c in wa_s if f.dominates(ap.bb, c.bb) and decision.describe_deep(f, c.args[1], 6).count("hexized_bytes")]
+    per = [c for c in wa_s if f.dominates(ap.bb, c.bb) and chunk is not None and paths.root_call(f, c.args[1], through=THRU) is not None and paths.root_call(f, c.args[1], through=THRU).bb == chunk.bb]
     ok = len(per) == 1 and any(f.dominates(per[0].bb, x.bb) for x in fl_s)
     ck.ob(R, "chunk-sent-per-item", ok, f.loc(ap.sp), "" if ok else "the chunk is not written and flushed in the item's iteration", how="write_all(chunk); flush() after the append")
     # (5) terminal chunk on every exit of the item loop
@@ -224,13 +248,34 @@ def c17c(ck, prog):
     f = fs[0]
     rows = decision.const_table(f, prog)
     table = {}
-    for conds, val in rows:
-        key = tuple(c[1] for c in conds if isinstance(c[1], str))
-        d = (val or {}).get("desc", "?")
-        d = "Ready(Some)" if d.startswith("Ready{Some{pop_front") else "Ready(None)" if d.startswith("Ready{None") else "Pending" if d.startswith("Pending") else d
-        table[key] = d
-    want = {("Ready", "None"): "Ready(None)", ("Ready", "Some"): "Ready(Some)", ("Pending", "None"): "Pending", ("Pending", "Some"): "Ready(Some)"}
     subj = [c[0] for conds, _ in rows for c in conds]
+
+    def norm(d):
+        return "Ready(Some)" if d.startswith("Ready{Some{pop_front") else "Ready(None)" if d.startswith("Ready{None") else "Pending" if d.startswith("Pending") else d
+
+    for conds, val in rows:
+        prod = [c[1] for c in conds if isinstance(c[1], str) and "poll_queuing_future" in str(c[0])]
+        pop = [c[1] for c in conds if isinstance(c[1], str) and "pop_front" in str(c[0])]
+        d = (val or {}).get("desc", "?")
+        out = {}
+        m = re.match(r"map\(poll_queuing_future\(", d)
+        if m and not prod:
+            # `producer.map(|()| X)`: Ready(()) -> Ready(X), Pending -> Pending
+            inner = None
+            for g_ in prog.descendants(f.key):
+                rs = paths.ret_sites(g_)
+                if len(rs) == 1 and rs[0][1] in ("None", "Some"):
+                    inner = rs[0][1]
+            if inner is not None:
+                out = {"Ready": "Ready(%s)" % inner, "Pending": "Pending"}
+        elif prod:
+            out = {prod[0]: norm(d)}
+        else:
+            out = {"Ready": norm(d), "Pending": norm(d)}    # decided without looking at the producer's poll
+        for pk, v in out.items():
+            for qk in (pop if pop else ["None", "Some"]):
+                table[(pk, qk)] = v
+    want = {("Ready", "None"): "Ready(None)", ("Ready", "Some"): "Ready(Some)", ("Pending", "None"): "Pending", ("Pending", "Some"): "Ready(Some)"}
     for k, v in want.items():
         ok = table.get(k) == v
         ck.ob(R, "row:%s/%s" % k, ok, f.loc(None), "" if ok else "poll_next yields %s when the producer is %s and the queue pop is %s, expected %s" % (table.get(k), k[0], k[1], v), how="(%s, %s) -> %s" % (k[0], k[1], v))
@@ -246,9 +291,14 @@ def c17c(ck, prog):
     clears = [(bi, st) for bi, st, agg in decision.field_stores(g, "queuing_state") if agg is not None and agg[1].get("variant") == "None"]
     ok = len(clears) == 1 and paths.has_fact(g, prog, clears[0][0], lambda fa: fa.kind == "boolcall" and fa.truth and fa.call.name == "is_ready") is not None
     ck.ob(R, "producer-dropped-only-when-ready", ok, g.loc(None), "" if ok else "the producer future stops being polled on a path where its poll was not Ready: messages it would still send are lost", how="queuing_state = None only under poll.is_ready()")
-    rows = decision.const_table(g, prog)
-    fin = [d for conds, d in rows if any(c[1] == "otherwise" and "is_none" in c[0] for c in conds)]
-    ok = len(fin) == 1 and (fin[0] or {}).get("desc", "").startswith("Ready")
+    # every answer given where the producer is known to be finished (queuing_state is None) is Ready(())
+    fin = []
+    for bb, kind, pl in paths.ret_sites(g):
+        gone = paths.has_fact(g, prog, bb, lambda fa: (fa.kind == "boolcall" and fa.truth and fa.call.name == "is_none" and "queuing_state" in decision.describe_deep(g, fa.call.args[0], 3))
+                              or (fa.kind == "variant" and fa.allowed == {"None"} and "queuing_state" in guards.describe_origin(g, fa.steps) + (decision.describe_deep(g, fa.steps[-1][1].args[0], 3) if fa.steps and fa.steps[-1][0] == "call" and fa.steps[-1][1].args else "")))
+        if gone is not None:
+            fin.append(kind)
+    ok = bool(fin) and all(k == "Ready" for k in fin)
     ck.ob(R, "finished=>Ready", ok, g.loc(None), "" if ok else "a finished producer is not reported as Ready", how="queuing_state.is_none() => Ready(())")
     polls = [c for c in g.calls() if re.search(r"Future::poll$", c.decl or "")]
     ok = len(polls) == 1 and decision.describe_deep(g, polls[0].args[1], 1) == "arg2"
